@@ -5,7 +5,7 @@ CFG = {
     "check_vo": "theories/Check/C08.vo", "prop_vo": "theories/Properties/C08.vo",
     "prop_file": "theories/Properties/C08.v",
     "theory_files": ["theories/Base/Bytes.v", "theories/Base/BytesProofs.v", "theories/Base/BytesMore.v",
-                     "theories/Formats/PlyRead.v", "theories/Formats/PlyReadSpec.v", "theories/Formats/PlyReadProofs.v", "theories/Formats/PlyReadMesh.v",
+                     "theories/Formats/PlyRead.v", "theories/Formats/PlyReadSpec.v", "theories/Formats/PlyReadProofs.v", "theories/Formats/PlyReadMesh.v", "theories/Formats/PlyReadMore.v", "theories/Formats/PlyBig.v",
                      "theories/Formats/PlyText.v", "theories/Formats/PlyTextProofs.v", "theories/Formats/PlyReadV2.v"],
     "level_text": "Coq theorems about an executable model of ply.ReadMesh against a reference encoder of the PLY "
                   "specification's grammar: END TO END read_mesh (encode a) = describe a for every abstract file in the "
